@@ -60,12 +60,12 @@ type SliceV struct {
 type CondOp uint8
 
 const (
-	CConst  CondOp = iota // V
-	CGE                   // F >= 0
-	CEQ                   // F == 0
-	CPred                 // named predicate / opaque boolean
-	CNot                  // !X
-	CAnd                  // X && Y (only produced by phi-less evaluation of bool BinOps)
+	CConst CondOp = iota // V
+	CGE                  // F >= 0
+	CEQ                  // F == 0
+	CPred                // named predicate / opaque boolean
+	CNot                 // !X
+	CAnd                 // X && Y (only produced by phi-less evaluation of bool BinOps)
 	COr
 )
 
